@@ -24,10 +24,9 @@ Fact(prop) == kind = "fact" /\ l <= Len(Facts) /\ Facts[l].prop = prop
 C01_ConcurrentSnapshots == Fact("C01") => Facts[l].a <= Facts[l].b
 \* ... nor more waiting jobs than its queue limit (a = waiting, b = limit, negative: unbounded)
 C05_ConcurrentSnapshots == Fact("C05") => (Facts[l].b < 0 \/ Facts[l].a <= Facts[l].b)
-\* the critical section of an accepted request precedes the one in which Shutdown began (a, b: positions in the order of the
-\* critical sections, b = 0: Shutdown has not begun); when Shutdown has returned no job is left non-terminal (a = their number)
-C11_ConcurrentShutdown == Fact("C11") =>
-   IF Facts[l].what = "accepted-vs-shutdown" THEN (Facts[l].b = 0 \/ Facts[l].a < Facts[l].b) ELSE Facts[l].a = 0
+\* the critical section of an accepted request precedes the one in which Shutdown began (a = 1: it came after it, judged by the
+\* order of the critical sections); when Shutdown has returned no job is left non-terminal (a = their number)
+C11_ConcurrentShutdown == Fact("C11") => Facts[l].a = 0
 \* a job is built from the definitions installed by the last ReplaceDefinitions before its own critical section (a = the job's, b = installed)
 C16_ConcurrentReload == Fact("C16") => Facts[l].a = Facts[l].b
 \* a completed job of the pipeline that goes on after a failure, one of whose tasks failed, is not reported as succeeded (a = 1)
